@@ -159,14 +159,14 @@ GROUP BY fingerprint, timestamp_ns, type;
 
 DROP TABLE IF EXISTS {{.DB}}.metrics_15s_mv_bak {{.OnCluster}};
 
-ALTER TABLE time_series
+ALTER TABLE time_series {{.OnCluster}}
     (ADD COLUMN IF NOT EXISTS `type_v2` UInt8 ALIAS type);
 
-ALTER TABLE time_series_gin
+ALTER TABLE time_series_gin {{.OnCluster}}
     (ADD COLUMN IF NOT EXISTS `type_v2` UInt8 ALIAS type);
 
-ALTER TABLE samples_v3
+ALTER TABLE samples_v3 {{.OnCluster}}
     (ADD COLUMN IF NOT EXISTS `type_v2` UInt8 ALIAS type);
 
-ALTER TABLE metrics_15s
+ALTER TABLE metrics_15s {{.OnCluster}}
     (ADD COLUMN IF NOT EXISTS `type_v2` UInt8 ALIAS type);
